@@ -549,7 +549,7 @@ def candidate_search(module, name, fn, witnesses, max_runs=6000):
 
 
 def _as_term(x):
-    if isinstance(x, bool):
+    if type(x) is bool:
         return z3.BoolVal(x)
     e = getattr(x, "e", None)
     return e if e is not None else x
